@@ -595,3 +595,26 @@ func (n *Net) PeersWaiting(topic string) int {
 	defer n.mu.Unlock()
 	return n.peersWaiting[topic]
 }
+
+// JoinWhileCut lets a and b observe each other joining the topics both subscribe to although
+// the link between them stays down: the peer is listed by pubsub (e.g. through a relaying
+// mesh) but cannot be reached over the direct channel, so a head exchange attempted now fails.
+func (n *Net) JoinWhileCut(a, b int) {
+	type ev struct {
+		t    *simTopic
+		peer peer.ID
+	}
+	var evs []ev
+	n.mu.Lock()
+	for _, members := range n.subs {
+		ta, tb := members[a], members[b]
+		if ta == nil || tb == nil {
+			continue
+		}
+		evs = append(evs, ev{ta, n.peers[b]}, ev{tb, n.peers[a]})
+	}
+	n.mu.Unlock()
+	for _, e := range evs {
+		e.t.pushPeer(&iface.EventPubSubJoin{Topic: e.t.name, Peer: e.peer})
+	}
+}
